@@ -110,7 +110,7 @@ def main():
             dirs.append(a)
     work = []
     for top in dirs:
-        rn = {"candidates": "round1", "candidates2": "round2", "candidates3": "round3", "candidates4": "round4", "candidates5": "round5", "candidates6": "round6", "candidates7": "round7"}.get(
+        rn = {"candidates": "round1", "candidates2": "round2", "candidates3": "round3", "candidates4": "round4", "candidates5": "round5", "candidates6": "round6", "candidates7": "round7", "candidates8": "round8"}.get(
             os.path.basename(os.path.normpath(top)), "roundx")
         for prop in sorted(os.listdir(top)):
             pd = os.path.join(top, prop)
